@@ -367,120 +367,7 @@ impl Ctx {
     }
 
     fn log_call(&mut self, c: Call) {
-        let mut l = self.sh.lock();
-        match (&c.kind, &c.res) {
-            (_, Res::Send(SendOut::Ok, _)) => l.accepted += 1,
-            (CallKind::CloneTx, _) => l.live_senders += 1,
-            (CallKind::DropTx, _) | (CallKind::UnsubTx, _) => l.live_senders -= 1,
-            (CallKind::CloneRx, _) | (CallKind::AddStream, _) => l.live_receivers += 1,
-            (CallKind::DropRx, _) | (CallKind::UnsubRx, _) => l.live_receivers -= 1,
-            _ => {}
-        }
-        if let Res::Recv(RecvOut::Val(s)) = &c.res {
-            let id = s.id;
-            if !l.delivered.contains(&id) {
-                l.delivered.push(id);
-            }
-            let gates: Vec<usize> = l
-                .value_gates
-                .iter()
-                .filter(|(v, _)| *v == id)
-                .map(|(_, g)| *g)
-                .collect();
-            for g in gates {
-                sched().gate_open(g);
-            }
-        }
-        if l.model.is_some() {
-            let r = l.model.as_mut().unwrap().on_call(&c);
-            if let Err(e) = r {
-                if l.viol.len() < 8 {
-                    l.viol.push(Violation {
-                        kind: "ModelMismatch".into(),
-                        detail: format!("op #{} {:?} on handle {} (stream {}): {}", c.op_idx, c.kind, c.handle, c.stream, e),
-                    });
-                }
-                // stop comparing after the first divergence: the model state is no longer meaningful
-                l.model = None;
-            } else {
-                self.check_parked(&mut l, &c);
-            }
-        }
-        l.calls.push(c);
-    }
-
-    /// Sequential part of C14: after a call that makes progress possible for a parked task, the
-    /// task must have been notified by the time the call returns.
-    fn check_parked(&self, l: &mut LogState, c: &Call) {
-        // register / unregister parked tasks
-        match (&c.kind, &c.res) {
-            (CallKind::Poll, Res::Recv(RecvOut::Empty)) => {
-                let t = TASK_ID_BASE + c.handle as usize;
-                handles::notified_take(t);
-                l.parked.retain(|p| p.task != t);
-                l.parked.push(ParkedTask {
-                    task: t,
-                    stream: Some(c.stream),
-                });
-                l.stats.parked += 1;
-                return;
-            }
-            (CallKind::StartSend, Res::Send(SendOut::NotReady(_), _)) => {
-                let t = TASK_ID_BASE + c.handle as usize;
-                handles::notified_take(t);
-                l.parked.retain(|p| p.task != t);
-                l.parked.push(ParkedTask { task: t, stream: None });
-                l.stats.parked += 1;
-                return;
-            }
-            (CallKind::Poll, _) | (CallKind::StartSend, _) => {
-                let t = TASK_ID_BASE + c.handle as usize;
-                l.parked.retain(|p| p.task != t);
-            }
-            (CallKind::DropRx, _) | (CallKind::UnsubRx, _) | (CallKind::DropTx, _) | (CallKind::UnsubTx, _) => {
-                // the handle (and with it its task) is gone
-                let t = TASK_ID_BASE + c.handle as usize;
-                l.parked.retain(|p| p.task != t);
-            }
-            _ => {}
-        }
-        let m = match l.model.as_ref() {
-            Some(m) => m,
-            None => return,
-        };
-        let mut still = Vec::new();
-        let mut bad = Vec::new();
-        for p in l.parked.iter() {
-            let can_progress = match p.stream {
-                Some(s) => m.recv_would_return(s),
-                None => m.streams.is_empty() || !m.is_full(),
-            };
-            if can_progress {
-                if handles::notified_take(p.task) {
-                    // notified: the task would poll again
-                } else {
-                    bad.push(p.clone());
-                }
-            } else {
-                still.push(p.clone());
-            }
-        }
-        l.parked = still;
-        for p in bad {
-            if l.viol.len() < 8 {
-                l.viol.push(Violation {
-                    kind: "ParkedNotNotified".into(),
-                    detail: format!(
-                        "{} task of handle {} stayed parked without notification after op #{} {:?} on handle {} made progress possible",
-                        if p.stream.is_some() { "stream" } else { "sink" },
-                        p.task - TASK_ID_BASE,
-                        c.op_idx,
-                        c.kind,
-                        c.handle
-                    ),
-                });
-            }
-        }
+        log_call_sh(&self.sh, c);
     }
 
     fn violation(&self, kind: &str, detail: String) {
@@ -666,29 +553,30 @@ impl Ctx {
         });
     }
 
-    fn log_iter_items(&mut self, hid: u32, stream: u32, rxk: RxKind, kind: CallKind, items: Vec<(Option<Seen>, u64, u64)>) -> bool {
-        let mut ended = false;
-        for (it, t0, t1) in items {
+    /// callback that logs every `next()` of an iterator as its own call, as it happens
+    fn iter_emitter(&self, hid: u32, stream: u32, rxk: RxKind, kind: CallKind) -> impl FnMut(Option<Seen>, u64, u64) {
+        let sh = self.sh.clone();
+        let (prog, op_idx) = (self.prog, self.op_idx);
+        move |it, t0, t1| {
             let res = match it {
                 Some(s) => RecvOut::Val(s),
-                None => {
-                    ended = true;
-                    RecvOut::End
-                }
+                None => RecvOut::End,
             };
-            self.log_call(Call {
-                prog: self.prog,
-                op_idx: self.op_idx,
-                kind,
-                handle: hid,
-                stream,
-                t0,
-                t1,
-                res: Res::Recv(res),
-                rxk: Some(rxk),
-            });
+            log_call_sh(
+                &sh,
+                Call {
+                    prog,
+                    op_idx,
+                    kind,
+                    handle: hid,
+                    stream,
+                    t0,
+                    t1,
+                    res: Res::Recv(res),
+                    rxk: Some(rxk),
+                },
+            );
         }
-        ended
     }
 
     fn drain(&mut self, i: usize, how: DrainHow, extra: u8) {
@@ -707,12 +595,11 @@ impl Ctx {
                 stream,
                 op_idx: self.op_idx,
             });
-            let items = match h.rx.into_iter_take(usize::MAX, extra, &|| sched().tick()) {
-                Ok(v) => v,
-                Err(_) => unreachable!(),
-            };
+            let mut emit = self.iter_emitter(hid, stream, rxk, CallKind::IterNext);
+            if h.rx.into_iter_take(usize::MAX, extra, &|| sched().tick(), &mut emit).is_err() {
+                unreachable!();
+            }
             sched().set_activity(Act::default());
-            self.log_iter_items(hid, stream, rxk, CallKind::IterNext, items);
             // the iterator owned the handle: it is gone now
             let t = self.tick();
             self.log_call(Call {
@@ -937,12 +824,12 @@ impl Ctx {
                         stream,
                         op_idx: self.op_idx,
                     });
-                    let items = self.rxs[i]
+                    let mut emit = self.iter_emitter(hid, stream, rxk, CallKind::TryIterNext);
+                    self.rxs[i]
                         .rx
-                        .try_iter(*max as usize + 1, *variant, &|| sched().tick())
+                        .try_iter(*max as usize + 1, *variant, &|| sched().tick(), &mut emit)
                         .unwrap();
                     sched().set_activity(Act::default());
-                    self.log_iter_items(hid, stream, rxk, CallKind::TryIterNext, items);
                 }
                 Some(i) => {
                     self.do_try_recv(i);
@@ -976,12 +863,11 @@ impl Ctx {
                         stream,
                         op_idx: self.op_idx,
                     });
-                    let items = match h.rx.into_iter_take(max_calls, *variant, &|| sched().tick()) {
-                        Ok(v) => v,
-                        Err(_) => unreachable!(),
-                    };
+                    let mut emit = self.iter_emitter(hid, stream, rxk, CallKind::IterNext);
+                    if h.rx.into_iter_take(max_calls, *variant, &|| sched().tick(), &mut emit).is_err() {
+                        unreachable!();
+                    }
                     sched().set_activity(Act::default());
-                    self.log_iter_items(hid, stream, rxk, CallKind::IterNext, items);
                     let t = self.tick();
                     self.log_call(Call {
                         prog: self.prog,
@@ -1346,6 +1232,124 @@ impl Ctx {
         }
     }
 }
+
+pub fn log_call_sh(sh: &Shared, c: Call) {
+    let mut l = sh.lock();
+    match (&c.kind, &c.res) {
+        (_, Res::Send(SendOut::Ok, _)) => l.accepted += 1,
+        (CallKind::CloneTx, _) => l.live_senders += 1,
+        (CallKind::DropTx, _) | (CallKind::UnsubTx, _) => l.live_senders -= 1,
+        (CallKind::CloneRx, _) | (CallKind::AddStream, _) => l.live_receivers += 1,
+        (CallKind::DropRx, _) | (CallKind::UnsubRx, _) => l.live_receivers -= 1,
+        _ => {}
+    }
+    if let Res::Recv(RecvOut::Val(s)) = &c.res {
+        let id = s.id;
+        if !l.delivered.contains(&id) {
+            l.delivered.push(id);
+        }
+        let gates: Vec<usize> = l
+            .value_gates
+            .iter()
+            .filter(|(v, _)| *v == id)
+            .map(|(_, g)| *g)
+            .collect();
+        for g in gates {
+            sched().gate_open(g);
+        }
+    }
+    if l.model.is_some() {
+        let r = l.model.as_mut().unwrap().on_call(&c);
+        if let Err(e) = r {
+            if l.viol.len() < 8 {
+                l.viol.push(Violation {
+                    kind: "ModelMismatch".into(),
+                    detail: format!("op #{} {:?} on handle {} (stream {}): {}", c.op_idx, c.kind, c.handle, c.stream, e),
+                });
+            }
+            // stop comparing after the first divergence: the model state is no longer meaningful
+            l.model = None;
+        } else {
+            check_parked(&mut l, &c);
+        }
+    }
+    l.calls.push(c);
+}
+
+/// Sequential part of C14: after a call that makes progress possible for a parked task, the
+/// task must have been notified by the time the call returns.
+fn check_parked(l: &mut LogState, c: &Call) {
+    // register / unregister parked tasks
+    match (&c.kind, &c.res) {
+        (CallKind::Poll, Res::Recv(RecvOut::Empty)) => {
+            let t = TASK_ID_BASE + c.handle as usize;
+            handles::notified_take(t);
+            l.parked.retain(|p| p.task != t);
+            l.parked.push(ParkedTask {
+                task: t,
+                stream: Some(c.stream),
+            });
+            l.stats.parked += 1;
+            return;
+        }
+        (CallKind::StartSend, Res::Send(SendOut::NotReady(_), _)) => {
+            let t = TASK_ID_BASE + c.handle as usize;
+            handles::notified_take(t);
+            l.parked.retain(|p| p.task != t);
+            l.parked.push(ParkedTask { task: t, stream: None });
+            l.stats.parked += 1;
+            return;
+        }
+        (CallKind::Poll, _) | (CallKind::StartSend, _) => {
+            let t = TASK_ID_BASE + c.handle as usize;
+            l.parked.retain(|p| p.task != t);
+        }
+        (CallKind::DropRx, _) | (CallKind::UnsubRx, _) | (CallKind::DropTx, _) | (CallKind::UnsubTx, _) => {
+            // the handle (and with it its task) is gone
+            let t = TASK_ID_BASE + c.handle as usize;
+            l.parked.retain(|p| p.task != t);
+        }
+        _ => {}
+    }
+    let m = match l.model.as_ref() {
+        Some(m) => m,
+        None => return,
+    };
+    let mut still = Vec::new();
+    let mut bad = Vec::new();
+    for p in l.parked.iter() {
+        let can_progress = match p.stream {
+            Some(s) => m.recv_would_return(s),
+            None => m.streams.is_empty() || !m.is_full(),
+        };
+        if can_progress {
+            if handles::notified_take(p.task) {
+                // notified: the task would poll again
+            } else {
+                bad.push(p.clone());
+            }
+        } else {
+            still.push(p.clone());
+        }
+    }
+    l.parked = still;
+    for p in bad {
+        if l.viol.len() < 8 {
+            l.viol.push(Violation {
+                kind: "ParkedNotNotified".into(),
+                detail: format!(
+                    "{} task of handle {} stayed parked without notification after op #{} {:?} on handle {} made progress possible",
+                    if p.stream.is_some() { "stream" } else { "sink" },
+                    p.task - TASK_ID_BASE,
+                    c.op_idx,
+                    c.kind,
+                    c.handle
+                ),
+            });
+        }
+    }
+}
+
 
 #[derive(Clone, Debug, Serialize, Deserialize)]
 pub struct Execution {
